@@ -1,4 +1,5 @@
 import Gmx.Lemmas.PerpBook
+import Gmx.Lemmas.WholeFrame
 import Gmx.Lemmas.Borrowing
 /-!
 # C07 — open interest and collateral totals always match the open positions
@@ -277,6 +278,50 @@ theorem removal_realises_whole_pnl {W U : Nat} {m m' : Market} {c : PerpCfg} {pr
   obtain ⟨a, b⟩ := decrease_removed_full h hr
   obtain ⟨un, tot, hu, hc, e1, e2, _⟩ := promoted_close_realises_whole_pnl h a
   exact ⟨a, b, un, tot, hu, hc, e1, e2⟩
+
+/-! ### headline over whole-market histories (`PSys.wstep`, `Gmx.Model.Whole`)
+
+`inv_step` treats "any other market operation" as a replacement of the market guarded by
+`sameBookB` — for that case the guard IS the property (audit). The statements below have no such
+guard: the step function runs the REAL deposit, withdrawal, swap, clock, funding update, borrowing
+update and impact distribution next to the position operations, and the frame of each of them is
+proved (`Lemmas/WholeFrame.lean`, from mkt-liq's `deposit_spec` / `withdraw_spec` /
+`swapApply_spec`). The conjunction with C13 (`MarketInv`) and the token ledger over the same step
+function are `C08.step_preserves_MarketInv` / `C08.whole_ledger`. -/
+
+/-- **every operation of a whole-market history keeps the C07 invariant**: deposit, withdrawal,
+swap, new position, increase, decrease / liquidation, clock, funding update, borrowing update,
+impact distribution — successful or failing. -/
+theorem whole_inv_step (W U : Nat) (c : PerpCfg) (rc : RateCfg) (s : PSys) (o : WOp) (hinv : Inv s) :
+    Inv (s.wstep W U c rc o) := by
+  have mkt : Inv (match wMarketOp W U rc s.m o with | some m' => { s with m := m' } | none => s) := by
+    split
+    · rename_i m' hm
+      have hb := wMarketOp_sameBook hm
+      refine ⟨fun a b => ?_, hinv.2⟩
+      have := (SameBook.bk hb a b).symm
+      simp only [this]; exact hinv.1 a b
+    · exact hinv
+  cases o with
+  | openPos il cl => exact inv_step W U c s (.openPos il cl) hinv
+  | inc i coll size pr => exact inv_step W U c s (.inc i coll size pr) hinv
+  | dec i size wd fl pr => exact inv_step W U c s (.dec i size wd fl pr) hinv
+  | deposit l sh pr => exact mkt
+  | withdraw a pr => exact mkt
+  | swap il a pr => exact mkt
+  | tick n => exact mkt
+  | updFunding pr => exact mkt
+  | updBorrowing pr => exact mkt
+  | distribute => exact mkt
+
+/-- **C07 over every whole-market history**: after any mixed sequence of liquidity, position,
+clock and fee-state operations each side's open interest in USD and in tokens and the collateral
+totals equal the sums over the positions. -/
+theorem whole_inv_reachable (W U : Nat) (c : PerpCfg) (rc : RateCfg) (ops : List WOp) :
+    ∀ s : PSys, Inv s → Inv (s.wrun W U c rc ops) := by
+  induction ops with
+  | nil => intro s h; exact h
+  | cons o os ih => intro s h; exact ih _ (whole_inv_step W U c rc s o h)
 
 /-! ### Non-vacuity -/
 example : ((PSys.mk wMarket [wPos]).step 64 (10 ^ 9) wPerp (.dec 0 (10 * 10 ^ 9) 1799000000 {} wPrices)).ps.map (·.collateral)
